@@ -106,38 +106,40 @@ type histEnv struct {
 
 func histFiles(ext string) map[string]string {
 	return map[string]string{
-		"layouts/main" + ext:    "<html>@reserve(\"title\")|@reserve(\"body\")</html>",
-		"components/card" + ext: "<card {{ t }}>@slot</card>",
-		"home" + ext:            "@use(\"~main\")@insert(\"title\", \"Home \" + user.name)@insert(\"body\")@each(i in user.items)@component(\"~card\", {t: i})@slot[{{ loop.iter }}]@end@end@end@end",
-		"profile" + ext:         "profile {{ user.name }} ({{ user.age }}) {{ user.items.len() }}",
-		"list" + ext:            "{{ items.reverse().append(9) }}|{{ items.slice(1).prepend(0) }}|{{ items }}|{{ o }}",
-		"bad" + ext:             "before bad\n@each(v in [1, 2])row {{ v }}\n@end{{ 1 / zero }} after",
-		"bad2" + ext:            "l1\nl2 {{ user.nosuch }}\n",
-		"errors/500" + ext:      "<custom error page>",
-		"plain" + ext:           "plain file {{ n + 1 }}",
-		"counter" + ext:         "{{ total = 3 }}{{ label = \"s\" }}counted {{ total }}",
-		"reader" + ext:          "total is {{ total }}",
-		"label" + ext:           "{{ total = \"text\" }}{{ label = 1 }}{{ total }}{{ label }}",
-		"badloop" + ext:         "<ul>@each(u in users)<li>{{ u.name }}</li>@end</ul>",
-		"goodloop" + ext:        "<ul>@each(u in users)<li>{{ u.name }}</li>@end</ul>@for(k = 0; k < 2; k++)[{{ k }}]@end",
-		"badfor" + ext:          "@for(k = 0; k < 4; k++)[{{ 6 / (2 - k) }}]@end",
-		"errors/broken" + ext:   "broken error page {{ reason }}",
-		"layouts/bare" + ext:    "bare layout for {{ who }}@if(flag) flagged@end",
-		"usesbare" + ext:        "@use(\"~bare\")ignored page text",
-		"components/flag" + ext: "@if(admin)ADMIN@else guest@end@each(n in names)[{{ n }}]@end",
-		"usesflag" + ext:        "<@component(\"~flag\")>@each(k in [1, 2])(@component(\"~flag\"))@end",
-		"prints" + ext:          "{{ \"~card\" }}|{{ \"~main\" }}|{{ \"~flag\" }}|{{ \"components/card\" }}|{{ '~card' + \"~bare\" }}",
-		"rawpage" + ext:         "{{ frag.raw() }}|{{ frag }}",
-		"repeats" + ext:         "{{ pattern.repeat(n) }}|{{ amount.decimal(sep, places) }}",
-		"args" + ext:            "{{ word.at(-back) }}|{{ shown.then(!muted, \"n/a\") }}|{{ -n }}|{{ word.at(back - 1) }}|{{ [1, 2, 3].slice(-(back), 3) }}|@each(w in [word])@if(!muted){{ w.repeat(-(-back)) }}@end@end",
-		"item" + ext:            "item {{ it.name }}/{{ it.qty }} {{ it }}",
-		"strayinsert" + ext:     "@if(show)@insert(\"title\", \"T\")<b>{{ n }}</b><i>tail</i>@end|@each(k in [1, 2])@insert(\"x\")y@end({{ k }})<u>u</u>@end",
-		"box" + ext:             "{{ {left: -shift, unit: \"px\"}.left }}|{{ [-shift, !flag, -1] }}|{{ {a: {b: -shift}}.a.b }}|@each(k in [1, 2]){{ {v: -k, w: !flag}.v }}@end|{{ {on: !flag}.on }}",
-		"ratio" + ext:           "{{ total / count }}",
-		"shapes" + ext:          "{{ [1, [2, [n]]] }}|{{ {a: {b: {c: n}}}.a.b.c }}|{{ \"abcdef\".at(n) }}|{{ \"x\".repeat(n) }}|{{ [1, 2, 3, 4].slice(n).len() }}|{{ 5.decimal(\".\", n) }}|{{ true.then(n, 0) }}|{{ false.then(0, s) }}|{{ \"a,b\".split(\",\").join(s) }}|{{ [s].contains(\"k\") ? 1 : 2 }}|{{ \"kz\".contains(s) }}|{{ (1 > 0) ? n : 0 }}|{{ -n }}|{{ !b }}|{{ [n, 0][0] }}|{{ {k: n, j: s}.k }}|{{ \"s\" + s }}|{{ 1 + n * 2 }}|{{ 1.5 * n.float() }}|{{ [[s, \"x\"], [n]][0][0] }}|{{ {list: [n, {deep: s}]}.list[1].deep }}|{{ \"%d\".len() + n }}|{{ [\"p\", \"q\", \"r\", \"s\"][n] }}|{{ \"abc\".truncate(n, s) }}|{{ [3, 1, 2].contains(n) }}|{{ n.str() + \"!\" }}|{{ b ? \"yes\" : \"no\" }}|{{ (b ? [1] : [1, 2]).len() }}|{{ [1, 2].append(n).len() }}|{{ [0].prepend(s)[0] }}|{{ n == 1 ? \"one\" : n == 3 ? \"three\" : \"many\" }}|@if(\"k\" == s)Y@elseif([3].contains(n))E@else N@end|@each(x in [1, n])<{{ x }}>@end|@for(i = 0; i < n; i++)({{ i }})@end|@each(x in [])@else{{ s }}@end|{{ v = [n, s] }}{{ v }}|{{ w = {k: n} }}{{ w.k }}",
-		"ruler" + ext:           "@use(\"~main\")@insert(\"title\", \"=\".repeat(width))@insert(\"body\", [\"w\", width.str()].join(\":\"))",
-		"badge" + ext:           "{{ \"admin,editor\".contains(role) ? \"staff\" : \"guest\" }}|{{ [role].contains(\"admin\") ? 1 : 2 }}|@if(\"admin\".contains(role))a@else b@end|{{ true.then(role, 0) }}|{{ role.len() > 5 ? \"long\" : \"short\" }}|{{ \"x\".repeat(role.len()) }}|{{ [1, 2, 3].slice(role.len() - 5).len() }}|@each(k in [1, 2]){{ \"ab\".contains(role.at(k)) ? \"y\" : \"n\" }}@end",
-		"numbers" + ext:         "{{ x.str() }}|{{ x }}|{{ (x * 1.0).str() }}|{{ (0.0 * x).str() }}|{{ [[n, n + 1], [0, 0]] }}|{{ [1, [n], \"s\"] }}|@each(k in [[n], [2]]){{ k }}@end|{{ {a: [n], b: {c: n}} }}|{{ [[]].len() + n }}|{{ [\"a\", [\"b\" + n.str()]] }}",
+		"layouts/main" + ext:     "<html>@reserve(\"title\")|@reserve(\"body\")</html>",
+		"components/card" + ext:  "<card {{ t }}>@slot</card>",
+		"home" + ext:             "@use(\"~main\")@insert(\"title\", \"Home \" + user.name)@insert(\"body\")@each(i in user.items)@component(\"~card\", {t: i})@slot[{{ loop.iter }}]@end@end@end@end",
+		"profile" + ext:          "profile {{ user.name }} ({{ user.age }}) {{ user.items.len() }}",
+		"list" + ext:             "{{ items.reverse().append(9) }}|{{ items.slice(1).prepend(0) }}|{{ items }}|{{ o }}",
+		"bad" + ext:              "before bad\n@each(v in [1, 2])row {{ v }}\n@end{{ 1 / zero }} after",
+		"bad2" + ext:             "l1\nl2 {{ user.nosuch }}\n",
+		"errors/500" + ext:       "<custom error page>",
+		"plain" + ext:            "plain file {{ n + 1 }}",
+		"counter" + ext:          "{{ total = 3 }}{{ label = \"s\" }}counted {{ total }}",
+		"reader" + ext:           "total is {{ total }}",
+		"label" + ext:            "{{ total = \"text\" }}{{ label = 1 }}{{ total }}{{ label }}",
+		"badloop" + ext:          "<ul>@each(u in users)<li>{{ u.name }}</li>@end</ul>",
+		"goodloop" + ext:         "<ul>@each(u in users)<li>{{ u.name }}</li>@end</ul>@for(k = 0; k < 2; k++)[{{ k }}]@end",
+		"badfor" + ext:           "@for(k = 0; k < 4; k++)[{{ 6 / (2 - k) }}]@end",
+		"errors/broken" + ext:    "broken error page {{ reason }}",
+		"layouts/bare" + ext:     "bare layout for {{ who }}@if(flag) flagged@end",
+		"usesbare" + ext:         "@use(\"~bare\")ignored page text",
+		"components/flag" + ext:  "@if(admin)ADMIN@else guest@end@each(n in names)[{{ n }}]@end",
+		"usesflag" + ext:         "<@component(\"~flag\")>@each(k in [1, 2])(@component(\"~flag\"))@end",
+		"prints" + ext:           "{{ \"~card\" }}|{{ \"~main\" }}|{{ \"~flag\" }}|{{ \"components/card\" }}|{{ '~card' + \"~bare\" }}",
+		"rawpage" + ext:          "{{ frag.raw() }}|{{ frag }}",
+		"components/frame" + ext: "<div>@slot</div><p>@slot(\"foot\")</p>",
+		"framed" + ext:           "@component(\"~frame\")@slot{{ name }}@end@slot(\"foot\")@if(name == \"Anna\")A@else other@end@end@end",
+		"repeats" + ext:          "{{ pattern.repeat(n) }}|{{ amount.decimal(sep, places) }}",
+		"args" + ext:             "{{ word.at(-back) }}|{{ shown.then(!muted, \"n/a\") }}|{{ -n }}|{{ word.at(back - 1) }}|{{ [1, 2, 3].slice(-(back), 3) }}|@each(w in [word])@if(!muted){{ w.repeat(-(-back)) }}@end@end",
+		"item" + ext:             "item {{ it.name }}/{{ it.qty }} {{ it }}",
+		"strayinsert" + ext:      "@if(show)@insert(\"title\", \"T\")<b>{{ n }}</b><i>tail</i>@end|@each(k in [1, 2])@insert(\"x\")y@end({{ k }})<u>u</u>@end",
+		"box" + ext:              "{{ {left: -shift, unit: \"px\"}.left }}|{{ [-shift, !flag, -1] }}|{{ {a: {b: -shift}}.a.b }}|@each(k in [1, 2]){{ {v: -k, w: !flag}.v }}@end|{{ {on: !flag}.on }}",
+		"ratio" + ext:            "{{ total / count }}",
+		"shapes" + ext:           "{{ [1, [2, [n]]] }}|{{ {a: {b: {c: n}}}.a.b.c }}|{{ \"abcdef\".at(n) }}|{{ \"x\".repeat(n) }}|{{ [1, 2, 3, 4].slice(n).len() }}|{{ 5.decimal(\".\", n) }}|{{ true.then(n, 0) }}|{{ false.then(0, s) }}|{{ \"a,b\".split(\",\").join(s) }}|{{ [s].contains(\"k\") ? 1 : 2 }}|{{ \"kz\".contains(s) }}|{{ (1 > 0) ? n : 0 }}|{{ -n }}|{{ !b }}|{{ [n, 0][0] }}|{{ {k: n, j: s}.k }}|{{ \"s\" + s }}|{{ 1 + n * 2 }}|{{ 1.5 * n.float() }}|{{ [[s, \"x\"], [n]][0][0] }}|{{ {list: [n, {deep: s}]}.list[1].deep }}|{{ \"%d\".len() + n }}|{{ [\"p\", \"q\", \"r\", \"s\"][n] }}|{{ \"abc\".truncate(n, s) }}|{{ [3, 1, 2].contains(n) }}|{{ n.str() + \"!\" }}|{{ b ? \"yes\" : \"no\" }}|{{ (b ? [1] : [1, 2]).len() }}|{{ [1, 2].append(n).len() }}|{{ [0].prepend(s)[0] }}|{{ n == 1 ? \"one\" : n == 3 ? \"three\" : \"many\" }}|@if(\"k\" == s)Y@elseif([3].contains(n))E@else N@end|@each(x in [1, n])<{{ x }}>@end|@for(i = 0; i < n; i++)({{ i }})@end|@each(x in [])@else{{ s }}@end|{{ v = [n, s] }}{{ v }}|{{ w = {k: n} }}{{ w.k }}",
+		"ruler" + ext:            "@use(\"~main\")@insert(\"title\", \"=\".repeat(width))@insert(\"body\", [\"w\", width.str()].join(\":\"))",
+		"badge" + ext:            "{{ \"admin,editor\".contains(role) ? \"staff\" : \"guest\" }}|{{ [role].contains(\"admin\") ? 1 : 2 }}|@if(\"admin\".contains(role))a@else b@end|{{ true.then(role, 0) }}|{{ role.len() > 5 ? \"long\" : \"short\" }}|{{ \"x\".repeat(role.len()) }}|{{ [1, 2, 3].slice(role.len() - 5).len() }}|@each(k in [1, 2]){{ \"ab\".contains(role.at(k)) ? \"y\" : \"n\" }}@end",
+		"numbers" + ext:          "{{ x.str() }}|{{ x }}|{{ (x * 1.0).str() }}|{{ (0.0 * x).str() }}|{{ [[n, n + 1], [0, 0]] }}|{{ [1, [n], \"s\"] }}|@each(k in [[n], [2]]){{ k }}@end|{{ {a: [n], b: {c: n}} }}|{{ [[]].len() + n }}|{{ [\"a\", [\"b\" + n.str()]] }}",
 	}
 }
 
@@ -308,6 +310,19 @@ func histOps() []histOp {
 		}},
 		{"EvaluateString(invoice 429192)", func(h *histEnv) string {
 			out, err := textwire.EvaluateString("<p>Invoice 429192: {{ total }} EUR</p>", map[string]any{"total": 5})
+			return fmt.Sprintf("out=%q err=%v", out, err)
+		}},
+		// a component file of text and placeholders only; what fills the placeholders depends on the data of the call
+		{"String(framed, name=Anna)", str("framed", func() map[string]any { return map[string]any{"name": "Anna"} })},
+		{"String(framed, name=Serhii)", str("framed", func() map[string]any { return map[string]any{"name": "Serhii"} })},
+		{"String(framed, nil)", str("framed", noData)},
+		// the same characters, an escaped quote among them, between quotes of either kind
+		{"EvaluateString(single-quoted it\\'s)", func(h *histEnv) string {
+			out, err := textwire.EvaluateString("{{ 'it\\'s' }}|{{ 'say \\\"hi\\\"' }}|{{ 'a\\\\b' }}", nil)
+			return fmt.Sprintf("out=%q err=%v", out, err)
+		}},
+		{"EvaluateString(double-quoted it\\'s)", func(h *histEnv) string {
+			out, err := textwire.EvaluateString("{{ \"it\\'s\" }}|{{ \"say \\\"hi\\\"\" }}|{{ \"a\\\\b\" }}", nil)
 			return fmt.Sprintf("out=%q err=%v", out, err)
 		}},
 		// one record kept by the caller and updated in place between calls (same keys, same lengths)
